@@ -3,8 +3,8 @@
 ID=$1; NAME=$2; DEMO=$3; NEEDS=$4; RAN=$5
 D=/verif/seeded/$NAME
 mkdir -p $D
-cp /tmp/seed/$ID/patch.diff $D/patch.diff
-cp /tmp/seed/$ID/$DEMO $D/$(basename $DEMO)
+cp ${SEED_ROOT:-/tmp/seed}/$ID/patch.diff $D/patch.diff
+cp ${SEED_ROOT:-/tmp/seed}/$ID/$DEMO $D/$(basename $DEMO)
 python3 - "$ID" "$NAME" "$DEMO" "$NEEDS" "$RAN" <<'PY'
 import json,sys
 ID,NAME,DEMO,NEEDS,RAN=sys.argv[1:6]
